@@ -176,3 +176,29 @@ def run(ctx):
     ctx.cov['binding_demo'].append(dict(spec='TraceBitIO', corrupted_events=[1, 2, 3], rejected=[(i, s) for i, s, _ in drej], ok=ok))
     if not ok:
         raise Inconclusive('binding demo failed for TraceBitIO: %s' % drej)
+
+
+def replay(ctx, path):
+    """re-execute the recorded history (same composition and calls; leaf contents are drawn again) on the current tree"""
+    d = json.load(open(path))
+    c = d['case']
+    if 'term' not in c or 'ops' not in c:
+        raise Inconclusive('replay file holds no history')
+    def lens(t, out):
+        if t['t'] in ('leaf', 'file'):
+            out[t['id']] = len(c['leaves'][t['id']])
+        for x in (t.get('rs') or []):
+            lens(x, out)
+        for f in ('r', 'y'):
+            if t.get(f):
+                lens(t[f], out)
+        return out
+    case = dict(term=c['term'], lens=lens(c['term'], {}), reqs=[{k: o[k] for k in ('op', 'h', 'h2', 'n', 'off', 'wh', 'qp')} for o in c['ops']])
+    cp = os.path.join(ctx.build, 'replay_case.ndjson'); ep = os.path.join(ctx.build, 'replay_events.ndjson')
+    vlib.write_ndjson(cp, [case])
+    ctx.run([ctx.go_build('c01'), 'run', cp, ep, '1'], check=True, timeout=300)
+    evs = vlib.read_ndjson(ep)
+    ctx.cov['evaluations'] = 1; ctx.cov['distinct_nontrivial'] = 2; ctx.cov['rule'] = 'replay of one recorded history'
+    for i, sig, opi in tv(ctx, evs, 'tv_replay', shards=1):
+        ctx.finding('bitio.%s@%s' % (sig, '+'.join(sorted(kinds(evs[i]['term'])))), 'replayed history, call %d' % opi, evs[i])
+    ctx.sample(dict(kind='replayed history', composition=shape(c['term'])))
